@@ -32,7 +32,8 @@ struct Op {
 };
 struct ActorSpec {
   int host = 0;
-  bool daemon = false;
+  bool daemon = false; // unused (daemonize is an operation)
+  bool spawned = false; // created by a "create" operation of another actor
   std::vector<Op> ops;
 };
 
@@ -54,6 +55,8 @@ static std::vector<sg4::BarrierPtr> bars;
 static std::vector<sg4::Mailbox*> mboxes;
 static std::vector<sg4::MessageQueue*> mqs;
 static std::vector<sg4::Host*> hosts;
+static std::vector<sg4::ActorPtr> aptr; // actors by program index (nullptr until created)
+static void run_actor(int idx);
 
 static long ticks_of(double t)
 {
@@ -106,13 +109,12 @@ struct Payload {
 static void run_actor(int idx)
 {
   const ActorSpec& spec = actors[idx];
-  long me               = sg4::this_actor::get_pid();
+  long me               = idx + 1; // actors are identified by their program index; "born" gives the pid mapping
+  simgrid_verif_log("{\"e\":\"born\",\"a\":%ld,\"pid\":%ld}\n", me, static_cast<long>(sg4::this_actor::get_pid()));
   std::vector<sg4::ActivityPtr> handles; // asynchronous activities of this actor, by creation order
   std::vector<Payload**> slots;          // reception buffer of each handle (nullptr for sends and execs)
   auto mkpay = [&](size_t k, long size) { return new Payload{me, static_cast<long>(k), size, me * 1000 + static_cast<long>(k)}; };
   auto payval = [](const Payload* p) { return p == nullptr ? -1 : (p->check == p->sender * 1000 + p->seq ? p->check : -2); };
-  if (spec.daemon)
-    sg4::Actor::self()->daemonize();
   for (size_t k = 0; k < spec.ops.size(); k++) {
     const Op& op = spec.ops[k];
     simgrid_verif_log("{\"e\":\"issue\",\"a\":%ld,\"k\":%zu,\"op\":\"%s\"}\n", me, k + 1, op.name.c_str());
@@ -148,7 +150,32 @@ static void run_actor(int idx)
         sg4::this_actor::sleep_for(op.a[2] * TICK);
       else if (n == "yield")
         sg4::this_actor::yield();
-      else if (n == "put")
+      else if (n == "create") {
+        int c = op.a[0] - 1;
+        aptr[c] = hosts[actors[c].host % nhosts]->add_actor("a" + std::to_string(c + 1), [c]() { run_actor(c); });
+      } else if (n == "onexit") {
+        long id = op.a[0];
+        sg4::this_actor::on_exit([me, id](bool failed) {
+          simgrid_verif_log("{\"e\":\"onexit\",\"a\":%ld,\"id\":%ld,\"failed\":%s,\"clk\":%ld}\n", me, id,
+                            failed ? "true" : "false", ticks_of(sg4::Engine::get_clock()));
+        });
+      } else if (n == "daemon")
+        sg4::Actor::self()->daemonize();
+      else if (n == "killtime")
+        sg4::Actor::self()->set_kill_time(op.a[2] * TICK);
+      else if (n == "kill") {
+        if (aptr[op.a[0] - 1] != nullptr)
+          aptr[op.a[0] - 1]->kill();
+      } else if (n == "killall")
+        sg4::Actor::kill_all();
+      else if (n == "join") {
+        if (aptr[op.a[0] - 1] == nullptr)
+          abort();
+        if (op.a[2] >= 0)
+          aptr[op.a[0] - 1]->join(op.a[2] * TICK);
+        else
+          aptr[op.a[0] - 1]->join();
+      } else if (n == "put")
         mboxes[op.a[0] - 1]->put(mkpay(k + 1, op.a[2]), op.a[2]);
       else if (n == "puta") {
         handles.push_back(mboxes[op.a[0] - 1]->put_async(mkpay(k + 1, op.a[2]), op.a[2]));
@@ -271,7 +298,7 @@ static void parse(const char* path)
       ActorSpec a;
       int d = 0;
       ls >> a.host >> d;
-      a.daemon = d != 0;
+      a.spawned = d != 0;
       actors.push_back(a);
     } else if (w == "@end")
       break;
@@ -332,11 +359,12 @@ int main(int argc, char** argv)
   sg4::Engine::on_deadlock_cb([]() { log_end("deadlock"); });
   sg4::Engine::on_simulation_end_cb([]() { log_end("normal"); });
 
-  std::vector<sg4::ActorPtr> aptr;
+  aptr.assign(actors.size(), nullptr);
   for (size_t i = 0; i < actors.size(); i++)
-    aptr.push_back(hosts[actors[i].host % nhosts]->add_actor("a" + std::to_string(i + 1), [i]() { run_actor(i); }));
+    if (not actors[i].spawned)
+      aptr[i] = hosts[actors[i].host % nhosts]->add_actor("a" + std::to_string(i + 1), [i]() { run_actor(i); });
   for (size_t i = 0; i < mbox_perm.size(); i++)
-    if (mbox_perm[i] > 0)
+    if (mbox_perm[i] > 0 && aptr[mbox_perm[i] - 1] != nullptr)
       mboxes[i]->set_receiver(aptr[mbox_perm[i] - 1]);
 
   e.run();
